@@ -596,6 +596,8 @@ def run_and_report(prop, tier, targets, jobs, t0, extra_cov=None, extra_assumpti
             if ob["class"] == "kf":
                 m = re.search(r"\[(KF-[^\]]+)\]", ob["desc"]); kid = m.group(1) if m else "?"
                 if prop in ob["props"]:
+                    if ob["status"] == "SUCCESS" and not job.get("bounded"):
+                        n_ob += 1; n_ok += 1; jn += 1; jd += 1      # a known-finding obligation that holds (finding fixed / regression guard) is an ordinary discharged obligation
                     if ob["status"] == "FAILURE":
                         ent = kf.get(kid)
                         if ent and ent.get("status") == "open" and ent.get("property") == prop:
